@@ -305,16 +305,18 @@ from ddsmt import mutators as _M
 SC.MUTSETS['_all'] = [c for c, _ in P.all_mutators()]
 SC.MUTSETS['_theory'] = [c for g, (mod, reg) in _M.get_all_mutators().items()
                          if g not in ('core', 'smtlib') for c in reg]
-for st, sc in %(cfgs)r:
+for cfg in %(cfgs)r:
+    st, sc = cfg[0], cfg[1]
+    ms = cfg[2] if len(cfg) > 2 else ('_theory' if sc == 'g' else '_all')
     d = Decider(0, replay=%(bits)r, reserved=8)
-    env = SC.setup(d, st, 1, 8, sc, '_theory' if sc == 'g' else '_all',
+    env = SC.setup(d, st, 1, 8, sc, ms,
                    oracle='hash0', maxwrites=60, norm_fresh=True)
     try:
         try:
             final = SC.run_strategy(env, st)
-            out[st + '_' + sc] = [env.writes, SC.tokens(final)]
+            out['_'.join(cfg)] = [env.writes, SC.tokens(final)]
         except SC.Runaway:
-            out[st + '_' + sc] = 'runaway'
+            out['_'.join(cfg)] = 'runaway'
     finally:
         env.restore()
 print('RESULT' + json.dumps(out))
@@ -338,7 +340,9 @@ def run_hashseed(tier):
             ('ddmin', 'c'), ('hierarchical', 'e'), ('hierarchical', 'g'),
             ('hybrid', 'g'), ('hierarchical', 'm'), ('ddmin', 'm'),
             ('hierarchical', 'q'), ('ddmin', 'n'), ('hierarchical', 'r'),
-            ('ddmin', 'r')]
+            ('ddmin', 'r'), ('hierarchical', 'r', 'sort'),
+            ('ddmin', 'r', 'sort'), ('hierarchical', 'q', 'late'),
+            ('hierarchical', 'c', 'sort')]
     seeds = [0, 1, 2, 3, 7, 11] if tier == 'quick' else list(range(24))
     results = {}
     bad = None
